@@ -109,6 +109,10 @@ CORPUS = [
     {'pth': 0.161, 'nu': 1.27, 'A': 0.377, 'B': 0.39, 'C': 0.15, 'ds': [3, 9, 11, 12],
      'ps': [0.125305, 0.133, 0.141, 0.149, 0.157, 0.165, 0.173, 0.181, 0.189, 0.196], 'n': N_TRIALS, 'seed': 2},
 ]
+# first fit ends in a local minimum with p_th < 0; panqec then reports the mid-range value as fss_params[0]
+FINDING_INSTANCE = {'pth': 0.159, 'nu': 0.68, 'A': 0.29, 'B': 0.71, 'C': -0.9, 'ds': [3, 13, 14, 15],
+                    'ps': [0.116347, 0.125229, 0.134979, 0.144814, 0.154408, 0.163394, 0.172562, 0.182393,
+                           0.19159, 0.202323], 'n': N_TRIALS, 'seed': 3}
 
 
 def make_inputs(d, p):
@@ -168,15 +172,31 @@ def run_thresholds(inst, variant=0):
     key = (json.dumps(inst, sort_keys=True), variant)
     if key in _cache:
         return _cache[key]
+    from unittest import mock
+    import panqec.analysis as pa
     from panqec.analysis import Analysis
     root = tempfile.mkdtemp(prefix='c16_')
+    calls = []
+    real_curve_fit = pa.curve_fit
+
+    def spy(f, xdata, ydata, *args, **kw):
+        # boundary spy on scipy: what went in (ydata) and what came out, copied at once
+        rec = {'ydata': [float(y) for y in ydata], 'xdata': [[float(v) for v in r] for r in xdata]}
+        calls.append(rec)
+        try:
+            res = real_curve_fit(f, xdata, ydata, *args, **kw)
+        except Exception as e:  # noqa: BLE001
+            rec['raised'] = type(e).__name__
+            raise
+        rec['popt'] = [float(v) for v in res[0]]
+        return res
     try:
         build_files(inst, root, variant)
         with warnings.catch_warnings():
             warnings.simplefilter('ignore')
             import io
             import contextlib
-            with contextlib.redirect_stdout(io.StringIO()):
+            with contextlib.redirect_stdout(io.StringIO()), mock.patch.object(pa, 'curve_fit', spy):
                 a = Analysis(root)
                 th = a.thresholds
                 trunc = a.trunc_results['total']
@@ -192,10 +212,16 @@ def run_thresholds(inst, variant=0):
                 'p_left': float(row['p_left']), 'p_right': float(row['p_right']),
                 'fit_status': str(row['fit_status']), 'fit_found': bool(row['fit_found']),
                 'bs_col': [float(x) for x in row['params_bs'][:, 0]],
+                'bs_A': [float(x) for x in row['params_bs'][:, 2]],
                 'n_trunc': int(len(trunc)),
+                'n_fit_calls': len(calls),
                 'points': sorted((int(r['d']), float(r['error_rate']), float(r['p_est']), int(r['n_trials']),
                                   int(r['n_fail'])) for _, r in res.iterrows()),
             }
+            # the best fit of the 'total' sector: first call whose targets are the p_est column, in row order
+            pe = [pt[2] for pt in sorted(out['points'], key=lambda t: (t[0], t[1]))]
+            first = [c for c in calls if sorted(c['ydata']) == sorted(pe) and len(c['ydata']) == len(pe)]
+            out['raw_opt'] = first[0].get('popt') if first else None
     except Exception as e:  # noqa: BLE001
         out = {'error': f'EXC:{type(e).__name__}:{str(e)[:120]}'}
     finally:
@@ -332,7 +358,7 @@ def correspondence(ctx):
 
     # --- planted thresholds: the real pipeline; TEST of optimiser + bootstrap, model glue on the real numbers
     s = Stream('planted-threshold-test')
-    for inst in instances(ctx, 161, 3, 14):
+    for inst in instances(ctx, 161, 2, 14) + [FINDING_INSTANCE]:
         out = run_thresholds(inst, 0)
         desc = {'instance': inst}
         if 'error' in out:
@@ -348,12 +374,10 @@ def correspondence(ctx):
         rows = ';'.join(f'{fr(p)},1,{fr(f)}' for (d, p, f, nt, nf) in out['points'])
         s.add(f'fssrange - - {rows}',
               f"{out['n_trunc']} {Fraction(out['p_left'])} {Fraction(out['p_right'])}", desc, tag='range')
-        rows_opt = ';'.join(f'{fr(p)},{fr(math.pow(d, fss[1]))},{fr(f)}' for (d, p, f, nt, nf) in out['points'])
-        rows_pl = ';'.join(f'{fr(p)},{fr(math.pow(d, inst["nu"]))},{fr(f)}' for (d, p, f, nt, nf) in out['points'])
-        # curve_fit contract (test): cost of the returned parameters <= cost of the planted parameters + 1e-9
-        s.add(f'fsscostle {fr(fss[0])} {fr(fss[2])} {fr(fss[3])} {fr(fss[4])} {rows_opt} '
-              f'{fr(inst["pth"])} {fr(inst["A"])} {fr(inst["B"])} {fr(inst["C"])} {rows_pl} 1 1/1000000000',
-              'le', desc, tag='curve_fit-contract')
+        if out.get('raw_opt'):
+            # glue between the optimiser's answer and the reported fss_params (100 bootstrap iterations)
+            s.add(f"fssreported {fr(out['raw_opt'][0])} {fr(out['p_left'])} {fr(out['p_right'])} 100 {fr(fss[0])}",
+                  'ok', desc, tag='reported-vs-optimiser')
         s.add(f'fssrecovered {fr(inst["pth"])} {fr(recovery_tol(out))} ' + toks, 'recovered', desc, tag='recovery')
     streams.append(s.run())
     return streams
@@ -429,18 +453,23 @@ def check_case(case):
                                         f"{min(inst['ps'])},{max(inst['ps'])}"))
             if out['n_trunc'] != len(inst['ds']) * len(inst['ps']):
                 checks.append(('rows-used', f"{out['n_trunc']} rows used of {len(inst['ds']) * len(inst['ps'])}"))
-            if abs(out['fss_params'][0] - inst['pth']) > 1e-3 * inst['pth']:
-                checks.append(('fitted-threshold', f"fss_params[0]={out['fss_params'][0]} planted {inst['pth']}"))
             if abs(out['p_th_fss'] - inst['pth']) > recovery_tol(out):
                 checks.append(('threshold', f"p_th_fss={out['p_th_fss']} planted {inst['pth']} "
                                             f"tolerance {recovery_tol(out):.3g}"))
+            # the resampled fits must be fits of the same data: their logical rate at threshold scatters around A
+            import statistics
+            med_a = statistics.median(out['bs_A'])
+            sd_a = statistics.pstdev(out['bs_A'])
+            if abs(med_a - inst['A']) > 4 * sd_a + 1e-3:
+                checks.append(('bootstrap-A', f"median of the bootstrap fits' A = {med_a}, planted {inst['A']} "
+                                              f"(spread {sd_a:.3g})"))
             counts = planted_counts(inst)
             for (d, p, f, nt, nf) in out['points']:
                 if nt != inst['n'] or nf != counts[(d, p)]:
                     checks.append(('pooled-counts', f'd={d} p={p}: n_trials={nt} n_fail={nf}, planted '
                                                     f"{inst['n']} / {counts[(d, p)]}"))
                     break
-            out2 = run_thresholds(inst, 1)
+            out2 = run_thresholds(inst, 1) if case.get('order', True) else out
             if 'error' in out2:
                 checks.append(('order', 'other file layout: ' + out2['error']))
             else:
@@ -451,6 +480,17 @@ def check_case(case):
                         break
                 if out['fit_status'] != out2['fit_status']:
                     checks.append(('order', f"fit_status {out['fit_status']!r} vs {out2['fit_status']!r}"))
+            # fss_params must be what the optimiser returned for the best fit (checked last, so that any other
+            # violation takes precedence).  A best fit that is itself off (local minimum of the third-party
+            # optimiser) is not counted against panqec here.
+            raw = out.get('raw_opt')
+            if raw is not None and not checks and out['fss_params'] != raw:
+                mid = (out['p_left'] + out['p_right']) / 2
+                name = ('fss-params-overwritten-by-range-midpoint' if out['fss_params'][0] == mid
+                        else 'fss-params-not-the-fit')
+                checks.append((name, f"fss_params={out['fss_params']} but curve_fit returned {raw}; data range "
+                                     f"[{out['p_left']}, {out['p_right']}], planted p_th {inst['pth']}, "
+                                     f"fit_status {out['fit_status']!r}"))
             if checks:
                 case['_check'] = checks[0][0]
                 return '; '.join(c[1] for c in checks[:3])
@@ -469,7 +509,8 @@ def check_case(case):
                     warnings.simplefilter('ignore')
                     opt = get_fit_params(np.array([x[1] for x in sel]), np.array([x[0] for x in sel]),
                                          np.array([x[2] for x in sel]),
-                                         params_0=[inst['ps'][0], 2, float(np.mean([x[2] for x in sel])), 1, 1])
+                                         params_0=[1.02 * inst['pth'], 0.97 * inst['nu'], 1.03 * inst['A'],
+                                                   0.96 * inst['B'], inst['C'] + 0.05], ftol=1e-10)
                 if abs(opt[0] - inst['pth']) > 1e-4 * inst['pth']:
                     return f'row order {perm_seed}: fitted p_th={opt[0]} planted {inst["pth"]}'
                 if base is None:
@@ -504,11 +545,12 @@ def oracle_cases(ctx, deep):
     for kind in STATUS_KINDS:
         for _ in range(6 if deep else 3):
             cases.append({'class': 'status', 'kind': kind, 'entry': gen_status_vals(rng, kind)})
-    insts = instances(ctx, 161, 3, 14)           # the same data sets as the correspondence (cached runs)
+    insts = instances(ctx, 161, 2, 14)           # the same data sets as the correspondence (cached runs)
     if deep and not ctx.thorough:
         insts = insts + [gen_instance(rng) for _ in range(4)]
-    for inst in insts:
-        cases.append({'class': 'planted', 'instance': inst})
+    for j, inst in enumerate(insts + [FINDING_INSTANCE]):
+        # the second file layout (order invariance) for every instance when searching deep, else for two
+        cases.append({'class': 'planted', 'instance': inst, 'order': bool(deep or j < 2)})
     for inst in insts[:3]:
         cases.append({'class': 'row-order', 'instance': inst})
     return cases
